@@ -1150,18 +1150,18 @@ func (m *membersPool) MembersLen(node base.Address) int {
 
 func (m *membersPool) Set(member Member) (added bool) {
 	_, _, _ = m.addrs.Set(memberid(member.Addr()), func(_ Member, addrfound bool) (Member, error) {
-		var members []Member
-
 		added = !addrfound
 
-		switch i, f := m.members.Value(member.Address().String()); {
-		case !f, i == nil:
-		default:
-			members = i
-		}
+		id := memberid(member.Addr())
 
-		members = append(members, member)
-		m.members.SetValue(member.Address().String(), members)
+		_, _, _ = m.members.Set(member.Address().String(), func(i []Member, _ bool) ([]Member, error) {
+			// NOTE rejoined member replaces the previous one of the same addr
+			members := util.FilterSlice(i, func(n Member) bool {
+				return memberid(n.Addr()) != id
+			})
+
+			return append(members, member), nil
+		})
 
 		return member, nil
 	})
